@@ -92,6 +92,29 @@ structure St where
   dirty : Bool := false
 deriving DecidableEq, Repr
 
+/-! ### state merging in the subset construction
+
+Channel ids are names: all that matters about a channel is whether it is closed (for good) or is the
+one open channel `bc.cur`. `St.norm` forgets which closed channel a thread or handle refers to; two
+states with the same `norm` have the same enabled events and successors with the same `norm`
+(they are bisimilar), so the subset construction may merge them. `accepts_sound` holds for *any*
+`BEq` on states, so this choice cannot make the check unsound; it only keeps the state sets small
+when many calls overlap. -/
+
+def St.ren (s : St) (c : Nat) : Nat := if s.bc.closed c then 0 else 1
+
+def TS.norm (s : St) : TS → TS
+  | .holdRan k hs => .holdRan k (hs.map s.ren)
+  | .mRan hs cb rt => .mRan (hs.map s.ren) cb rt
+  | .done hs => .done (hs.map s.ren)
+  | .wParked p c => .wParked p (s.ren c)
+  | ts => ts
+
+def St.norm (s : St) : Nat × Bool × List TS × List Nat × Bool :=
+  (s.x, s.bc.cur.isSome, s.th.map (TS.norm s), s.cx, s.dirty)
+
+instance (priority := high) instBEqSt : BEq St := ⟨fun a b => a.norm == b.norm⟩
+
 /-- observable events: exactly what the harness logs -/
 inductive Obs where
   | invHold (t : Nat) (k : HKind) (p : Prog)  -- `inv t hold|tryhold|mhold <prog>`
